@@ -520,6 +520,11 @@ func (s *Scanner) scanDocument() (token.Token, error) {
 				}
 				return tok, nil
 			}
+		default:
+			// a '*' that is not followed by '/' doesn't start the end of the document
+			if documentMode == documentHalfClose {
+				documentMode = documentOpen
+			}
 		}
 		s.readRune()
 	}
